@@ -57,6 +57,12 @@ type c16Scanner struct {
 	splitLoop                    ast.Stmt
 	splitOK                      bool
 	undecided                    bool
+
+	// the cut: word = seg[:cut], trSpace = seg[cut:] (c16trim.go)
+	cut      c15Lin
+	hasCut   bool
+	wordDef  *c16SegSlice // word = seg[:H] when the cut is an index (nil: trSpace := seg[len(word):])
+	spaceDef *c16SegSlice // trSpace = seg[L:]
 }
 
 func (s *c16Scanner) isField(e ast.Expr, name string) bool {
@@ -210,21 +216,11 @@ func c16Load(c *Ctx, short string) *c16Scanner {
 				if sl, ok := r.(*ast.SliceExpr); ok && s.isField(sl.X, "rest") && sl.High == nil && sl.Low != nil && s.rest == nil {
 					s.rest = lo
 				}
-				// trSpace := seg[len(word):]
-				if sl, ok := r.(*ast.SliceExpr); ok && s.isObj(sl.X, s.seg) && sl.High == nil && sl.Low != nil && t.Tok == token.DEFINE {
-					if cl, ok := unparen(sl.Low).(*ast.CallExpr); ok && len(cl.Args) == 1 {
-						if id, ok := cl.Fun.(*ast.Ident); ok && id.Name == "len" {
-							if wid, ok := unparen(cl.Args[0]).(*ast.Ident); ok {
-								s.trSpace = lo
-								s.word = s.info.ObjectOf(wid)
-							}
-						}
-					}
-				}
 			}
 		}
 		return true
 	})
+	s.findPieces()
 	if s.rest == nil || s.word == nil || s.trSpace == nil {
 		s.und("C16.a", "pieces", s.loop.Pos(), "could not identify rest / word / trSpace (expected `trSpace := seg[len(word):]` and, for the rich scanner, `rest = s.rest[len(seg):]`)")
 		return nil
@@ -315,8 +311,8 @@ func (s *c16Scanner) checkConstruction() {
 	}
 	// word is a right-trim of seg
 	s.checkWord()
-	// trSpace := seg[len(word):] was matched structurally in c16Load
-	c.ok("C16.a", s.name+"/seg = word ++ trSpace", s.loop.Pos(), "trSpace := seg[len(word):] and word is a prefix of seg")
+	// the two pieces are cut at one index (c16trim.go)
+	s.checkCut()
 	// seg is reassigned only to drop its trailing terminator (checked in the path rule); word/trSpace/rest are not reassigned after their definition
 	for _, o := range []types.Object{s.trSpace, s.br} {
 		if s.defs.count[o] != 1 {
@@ -331,6 +327,10 @@ func (s *c16Scanner) checkConstruction() {
 		}
 		it := c15IterOf(info, s.defs, st)
 		if it == nil || !it.full {
+			return true
+		}
+		// one loop over seg that measures both pieces, split at the cut
+		if s.partitionedMeasure(st) {
 			return true
 		}
 		body := c15Flat(it.body.List)
@@ -463,13 +463,31 @@ func (s *c16Scanner) checkWord() {
 		s.und("C16.a", "word is seg without its trailing whitespace", s.loop.Pos(), "word is assigned %d times", n)
 		return
 	}
+	// the trim loop read as a machine over a cursor (c16trim.go): decides every spelling it can follow
+	generalWhy := ""
+	if len(asg.Rhs) == len(asg.Lhs) {
+		for i, l := range asg.Lhs {
+			if !s.isObj(l, s.word) {
+				continue
+			}
+			if sl, isSl := unparen(asg.Rhs[i]).(*ast.SliceExpr); isSl && s.isObj(sl.X, s.seg) && sl.Low == nil && sl.High != nil && !sl.Slice3 {
+				decided, okT, why, lp := s.trimByCursor(asg, sl.High)
+				if decided {
+					s.trimLoop = lp
+					c.check(okT, "C16.a", key, lp.Pos(), "scan from the end over whitespace cells, the word ends after the first non-space cell", why+": non-whitespace ends up in trSpace (which may be dropped) or whitespace in word")
+					return
+				}
+				generalWhy = why
+			}
+		}
+	}
 	for cur := s.par[asg]; cur != nil && cur != ast.Node(s.loop.Body); cur = s.par[cur] {
 		if f, ok := cur.(*ast.ForStmt); ok {
 			loop = f
 		}
 	}
 	if loop == nil || loop.Init == nil || loop.Cond == nil || loop.Post == nil {
-		s.und("C16.a", "word is seg without its trailing whitespace", asg.Pos(), "word is not defined by a three-clause trim loop")
+		s.und("C16.a", "word is seg without its trailing whitespace", asg.Pos(), "word is not defined by a trim loop the recogniser can follow (%s)", generalWhy)
 		return
 	}
 	s.trimLoop = loop
@@ -1003,7 +1021,7 @@ func (s *c16Scanner) recogniseSplit(loop ast.Stmt) bool {
 		return fail("the split loop iterates over %s, not over the graphemes of the word", types.ExprString(it.x))
 	}
 	body := c15Flat(it.body.List)
-	if len(body) < 2 {
+	if len(body) < 1 {
 		s.und("C16.a", "long word is split in order", loop.Pos(), "split loop shape not recognised")
 		return false
 	}
@@ -1021,11 +1039,72 @@ func (s *c16Scanner) recogniseSplit(loop ast.Stmt) bool {
 		})
 	}
 	ifs, ok := body[0].(*ast.IfStmt)
-	if !ok || ifs.Else != nil || ifs.Init != nil {
+	if !ok || ifs.Init != nil {
 		s.und("C16.a", "long word is split in order", loop.Pos(), "split loop does not start with `if <full> { rest...; continue|break }`")
 		return false
 	}
-	tb := c15Flat(ifs.Body.List)
+	// One iteration either defers the grapheme (moves it, or it and all later ones, to rest) or keeps it (token += ch;
+	// w += ch.Width). Which arm of the test does which, and whether the other arm is an else or the tail of the body,
+	// is a matter of spelling: bring the body into  `if <full> { defer…; continue|break }; keep…`.
+	hasTok := func(list []ast.Stmt) bool {
+		for _, st := range list {
+			if as, isA := st.(*ast.AssignStmt); isA && s.appendOf(as, "token") != nil {
+				return true
+			}
+		}
+		return false
+	}
+	isBranch := func(st ast.Stmt) bool {
+		b, isB := st.(*ast.BranchStmt)
+		return isB && (b.Tok == token.BREAK || b.Tok == token.CONTINUE)
+	}
+	stripContinue := func(list []ast.Stmt) []ast.Stmt {
+		if n := len(list); n > 0 {
+			if b, isB := list[n-1].(*ast.BranchStmt); isB && b.Tok == token.CONTINUE {
+				if b.Label == nil {
+					return list[:n-1]
+				}
+				if ls, isL := s.par[loop].(*ast.LabeledStmt); isL && info.ObjectOf(ls.Label) == info.ObjectOf(b.Label) {
+					return list[:n-1]
+				}
+			}
+		}
+		return list
+	}
+	thenB := c15Flat(ifs.Body.List)
+	tail := body[1:]
+	var tb, keep []ast.Stmt
+	negCond := false
+	switch {
+	case ifs.Else == nil && !hasTok(thenB):
+		tb, keep = thenB, tail
+	case ifs.Else == nil && hasTok(thenB) && len(thenB) > 0 && isBranch(thenB[len(thenB)-1]) && len(stripContinue(thenB)) < len(thenB):
+		// if <fits> { keep…; continue }; defer…
+		tb, keep, negCond = tail, stripContinue(thenB), true
+	case ifs.Else != nil && len(tail) == 0:
+		eb, isBlock := ifs.Else.(*ast.BlockStmt)
+		if !isBlock {
+			s.und("C16.a", "long word is split in order", ifs.Pos(), "else-if chain in the split loop")
+			return false
+		}
+		elseB := c15Flat(eb.List)
+		if hasTok(thenB) == hasTok(elseB) {
+			s.und("C16.a", "long word is split in order", ifs.Pos(), "cannot tell the deferring arm from the keeping arm")
+			return false
+		}
+		if hasTok(thenB) {
+			tb, keep, negCond = elseB, stripContinue(thenB), true
+		} else {
+			tb, keep = thenB, stripContinue(elseB)
+		}
+		// the end of the body is an implicit continue
+		if len(tb) == 0 || !isBranch(tb[len(tb)-1]) {
+			tb = append(append([]ast.Stmt{}, tb...), &ast.BranchStmt{Tok: token.CONTINUE, TokPos: ifs.End()})
+		}
+	default:
+		s.und("C16.a", "long word is split in order", loop.Pos(), "split loop does not start with `if <full> { rest...; continue|break }`")
+		return false
+	}
 	if len(tb) < 2 {
 		s.und("C16.a", "long word is split in order", ifs.Pos(), "the full-line branch is not `rest += ...; continue|break`")
 		return false
@@ -1045,7 +1124,7 @@ func (s *c16Scanner) recogniseSplit(loop ast.Stmt) bool {
 	}
 	// false branch: token += ch ; w += ch.Width
 	tokOK := false
-	for _, st := range body[1:] {
+	for _, st := range keep {
 		as, ok := st.(*ast.AssignStmt)
 		if !ok {
 			s.und("C16.a", "long word is split in order", st.Pos(), "unexpected statement in the split loop")
@@ -1081,10 +1160,12 @@ func (s *c16Scanner) recogniseSplit(loop ast.Stmt) bool {
 			return fail("the full-line test depends on the current grapheme but later graphemes are tested again: a narrower grapheme can jump ahead of a wider one that was moved to rest (order is lost)")
 		}
 		paths := c15Paths(info, ifs.Cond)
-		if c15Modifies(info, ifs.Body, paths, map[types.Object]bool{}) {
-			return fail("the full-line branch modifies the operands of its own test: a later grapheme can go to the token after an earlier one went to rest")
+		for _, dst := range tb {
+			if c15Modifies(info, dst, paths, map[types.Object]bool{}) {
+				return fail("the full-line branch modifies the operands of its own test: a later grapheme can go to the token after an earlier one went to rest")
+			}
 		}
-		f := c15Formula(info, ifs.Cond)
+		f := c16NNF(c15Formula(info, ifs.Cond), negCond)
 		if !s.monotoneInW(f) {
 			s.und("C16.a", "long word is split in order", ifs.Cond.Pos(), "cannot show that the full-line test stays true once true (expected a lower bound on w)")
 			return false
@@ -1138,6 +1219,31 @@ func (s *c16Scanner) recogniseSplit(loop ast.Stmt) bool {
 	c.ok("C16.a", key, loop.Pos(), "graphemes go to the token until the line is full, all later ones to rest, in order")
 	s.splitOK = true
 	return true
+}
+
+// c16NNF pushes negations down to the atoms (neg: the formula is taken negated).
+func c16NNF(f *c15F, neg bool) *c15F {
+	switch f.op {
+	case "not":
+		return c16NNF(f.a, !neg)
+	case "and", "or":
+		op := f.op
+		if neg {
+			op = map[string]string{"and": "or", "or": "and"}[op]
+		}
+		return &c15F{op: op, a: c16NNF(f.a, neg), b: c16NNF(f.b, neg)}
+	case "le":
+		if neg {
+			return c15Le(f.lin.neg().plus(1))
+		}
+		return f
+	case "const":
+		return &c15F{op: "const", val: f.val != neg}
+	}
+	if neg {
+		return &c15F{op: "not", a: f}
+	}
+	return f
 }
 
 // monotoneInW: f is a disjunction/conjunction of lower bounds on w (w only grows in the loop).
